@@ -151,10 +151,63 @@ def check(w):
     return out
 
 
+def flatten_groups(ctx):
+    """Flattening: the statement does not define the default, but 'omitted == some explicit default' still implies that the
+    omitted form compiles whenever an explicit loop order over the same loop ranks does, and that its text equals the text
+    of one of those explicit orders.  Groups = (Einsum, partitioning with flatten) from the C03 universe."""
+    from mc.props import c03
+    from mc.spec import corpus
+    groups = {}
+    for w in c03.configs(corpus._Q if ctx.quick else corpus._T):
+        part = (w["spec"]["mapping"].get("partitioning") or {}).get("Z") or {}
+        if not any("flatten" in " ".join(v) for v in part.values()) or "rank-order" in w["spec"]["mapping"]:
+            continue
+        k = B.canon([[B.render_expr(e) for e in w["spec"]["exprs"]], part, w.get("sizes")])
+        g = groups.setdefault(k, {"decl": w["spec"]["decl"], "expr": w["spec"]["exprs"][0], "part": part, "orders": [], "tag": w["tag"]})
+        lo = (w["spec"]["mapping"].get("loop-order") or {}).get("Z")
+        if lo and lo not in g["orders"]:
+            g["orders"].append(lo)
+    gs = [g for g in groups.values() if g["orders"]]
+    if ctx.quick:
+        gs = [g for g in gs if len(g["orders"][0]) <= 4]
+        gs = gs[:: max(1, len(gs) // 60)]
+    return gs
+
+
+def check_flatten(g):
+    o = g["expr"]["out"][0]
+    texts = {}
+    ranks = sorted(g["orders"][0])
+    cands = [list(p) for p in itertools.permutations(ranks)] if len(ranks) <= 5 else g["orders"]
+    for lo in cands:
+        try:
+            texts[text_of(g["decl"], g["expr"], {"partitioning": {o: g["part"]}, "loop-order": {o: lo}})] = lo
+        except Exception:
+            pass
+    try:
+        omitted = text_of(g["decl"], g["expr"], {"partitioning": {o: g["part"]}})
+    except Exception as e:
+        if texts:
+            return {"status": "fail", "why": "with the loop order omitted the specification is rejected (%s: %s) although %d explicit loop orders "
+                    "over the same loop ranks compile, e.g. %r" % (type(e).__name__, e, len(texts), next(iter(texts.values())))}
+        return {"status": "rejected"}
+    if texts and omitted not in texts:
+        return {"status": "fail", "why": "the text emitted with the loop order omitted equals the text of none of the %d explicit "
+                "loop orders (all permutations of the loop ranks)\n--- omitted ---\n%s" % (len(texts), omitted)}
+    return {"status": "ok", "n": len(texts)}
+
+
 def run(ctx):
     work = configs(ctx)
     res = pmap(check, work, jobs=ctx.jobs, seed=ctx.seed, progress="C19")
+    groups = flatten_groups(ctx)
+    fres = pmap(check_flatten, groups, jobs=ctx.jobs, seed=ctx.seed)
     viols, pairs, rejected, ntext = [], 0, {}, 0
+    for g, r in zip(groups, fres):
+        pairs += r.get("n", 0)
+        if r["status"] == "fail":
+            viols.append({"sig": {"kind": "flatten-default", "einsum": B.render_expr(g["expr"]), "explicit": ["loop-order"], "partitioned": True},
+                          "msg": "%s partitioning=%s\n%s" % (B.render_expr(g["expr"]), g["part"], r["why"]), "case": {"g": g}})
     for w, r in zip(work, res):
         pairs += r["pairs"]
         if r["status"] == "rejected":
@@ -171,7 +224,7 @@ def run(ctx):
     uniq = {}
     for v in viols:
         uniq.setdefault((v["sig"]["einsum"], tuple(v["sig"]["explicit"]), v["sig"]["partitioned"]), v)
-    cov = {"evaluations": pairs, "distinct_nontrivial": ntext, "configurations": len(work), "compile_rejections": rejected,
+    cov = {"evaluations": pairs, "distinct_nontrivial": ntext, "configurations": len(work), "flatten_groups": len(groups), "compile_rejections": rejected,
            "rule": "templates (operand permutations, affine accesses, terms listing contracted ranks in different orders) x partitionings "
                    "without flatten x every subset of {rank-order, loop-order, partitioning} explicit vs omitted; evaluations = "
                    "(omitted, explicit) text pairs compared; distinct_nontrivial = accepted (Einsum, partitioning) configurations",
@@ -182,6 +235,14 @@ def run(ctx):
 
 
 def replay(ctx, case):
+    if "g" in case:
+        g = case["g"]
+        g["expr"]["out"] = tuple(g["expr"]["out"])
+        r = check_flatten(g)
+        if r["status"] == "fail":
+            return [{"sig": {"kind": "flatten-default", "einsum": B.render_expr(g["expr"]), "explicit": ["loop-order"], "partitioned": True},
+                     "msg": r["why"], "case": case}]
+        return []
     w = case["w"]
     w["expr"]["out"] = tuple(w["expr"]["out"])
     r = check(w)
